@@ -11,7 +11,7 @@ from .framework import VERIF, LEAN_DIR, WORK, DRIVER, ALLOWED_AXIOMS, ensure_rep
 FORBIDDEN = re.compile(r'\bsorry\b|\badmit\b|^\s*axiom\s|\bnative_decide\b|\bbv_decide\b|implemented_by|'
                        r'\bunsafe\s|maxHeartbeats\s+0\b', re.M)
 # table groups that are projections of one generated file
-DUMPER_OF = {'ChainPow': 'Chain', 'ChainNet': 'Chain', 'ChainAddr': 'Chain'}
+DUMPER_OF = {'ChainPow': 'Chain', 'ChainNet': 'Chain', 'ChainAddr': 'Chain', 'ChainSecret': 'Chain'}
 NATIVE_OK_FILES = set()   # no file may use native_decide any more (C11's 3-4 substitution bound is kernel-checked in shards)
 
 
